@@ -54,10 +54,18 @@ def configs(thorough, rng):
             d = dict(c)
             d["part_present"] = "link"
             extra.append(d)
+    for c in out[::5]:
+        if c["dest_present"] and c["overwrite"] and not c["part_present"]:
+            d = dict(c)
+            d["warm_saver"] = True          # the recorded save is the second one of a long-lived saver object
+            extra.append(d)
     allc = out + extra
     for i, c in enumerate(allc):
         c["retry_same_object"] = (i % 2 == 0)     # half of the retries reuse the AtomicSaver object
     return allc
+
+ALT_ERRNO = {"link": (errno.EPERM, errno.EMLINK), "rename": (errno.EACCES,), "replace": (errno.EACCES,), "open": (errno.EACCES,),
+             "unlink": (errno.EIO,), "fsync": (errno.ENOSPC,), "close": (errno.ENOSPC,)}
 
 
 def _job(job):
@@ -82,6 +90,9 @@ def main(tier, seed):
                 if names[k].startswith("env_"):
                     continue
                 jobs.append((tr["scenario"], {k: ERRNO.get(names[k], errno.EIO)}))
+                # the same step failing for another reason (the code may tell error numbers apart)
+                for alt in ALT_ERRNO.get(names[k], ()):
+                    jobs.append((tr["scenario"], {k: alt}))
             if thorough:
                 for k, m in itertools.combinations(range(n), 2):
                     if rng.random() < 0.35 and not names[k].startswith("env_"):
